@@ -126,7 +126,7 @@ pub fn openssl_csrs_with_keys(rng: &mut Rng, n: usize) -> Vec<(Base, PKey<Privat
 				// otherName whose value is a UTF8String (what rcgen can represent) or another string type
 				// (SRVName is an IA5String): the request is refused, or the issued certificate says the same
 				let tag = *rng.pick(&[0x0cu8, 0x0c, 0x16, 0x13, 0x1e, 0x04]);
-				let text: &[u8] = if tag == 0x1e { b"\0s\0r\0v" } else { b"_srv.example" };
+				let text: &[u8] = if tag == 0x1e { b"\0s\0r\0v" } else { b"srv.example-1" };
 				let mut val = vec![tag, text.len() as u8];
 				val.extend_from_slice(text);
 				if let Ok(oid) = openssl::asn1::Asn1Object::from_str(*rng.pick(&["1.3.6.1.5.5.7.8.7", "1.3.6.1.4.1.311.20.2.3", "1.2.3.4"])) {
@@ -691,3 +691,4 @@ pub fn run(ctx: &Ctx, pool: &[PoolKey]) {
 		ctx.inconclusive(&format!("too few observations: accepted {} rejected {}", acc, rej));
 	}
 }
+
